@@ -633,6 +633,74 @@ static void fam_linscale(Toks& tk, Out& out)
   }
 }
 
+// family "linsub": alg csc L nb n np (r c)*np vals[nb*np] x0[nb*n] — A = L0*U0 built by the generator from small
+// integers (unit lower L0, power-of-two diagonal of U0), right-hand side A*x0; the whole system is scaled by 2^-1040,
+// so every pivot is a subnormal number while every operation of the factorisation and the substitution stays exact:
+// the computed solution must be x0 exactly.
+template<class Ordering, class DM>
+static void sub_alg(const Case& cs, const std::vector<long long>& x0, Out& out)
+{
+  using SM = micm::SparseMatrix<double, Ordering>;
+  std::vector<double> x;
+  try
+  {
+    switch (cs.alg)
+    {
+      case 0: x = scale_solve<SM, DM, micm::LuDecompositionDoolittle, false>(cs, 0x1p-1040); break;
+      case 1: x = scale_solve<SM, DM, micm::LuDecompositionMozart, false>(cs, 0x1p-1040); break;
+      case 2: x = scale_solve<SM, DM, micm::LuDecompositionDoolittleInPlace, true>(cs, 0x1p-1040); break;
+      default: x = scale_solve<SM, DM, micm::LuDecompositionMozartInPlace, true>(cs, 0x1p-1040); break;
+    }
+  }
+  catch (const std::exception& e)
+  {
+    out.tok("ORACLE_WELL_CONDITIONED_SYSTEM_REFUSED:subnormal_pivots");
+    return;
+  }
+  for (std::size_t k = 0; k < x.size(); ++k)
+    if (x[k] != (double)x0[k])
+    {
+      out.tok("ORACLE_AX_NE_B:subnormal_pivots");
+      break;
+    }
+}
+
+static void fam_linsub(Toks& tk, Out& out)
+{
+  Case cs;
+  cs.alg = (int)tk.i();
+  long long csc = tk.i(), L = tk.i();
+  cs.nb = tk.i();
+  cs.n = tk.i();
+  long long np = tk.i();
+  for (long long k = 0; k < np; ++k)
+  {
+    auto r = tk.i();
+    auto c = tk.i();
+    cs.pat.emplace_back(r, c);
+  }
+  cs.vals = tk.ints(cs.nb * cs.pat.size());
+  auto x0 = tk.ints(cs.nb * cs.n);
+  cs.rhs.assign(cs.nb * cs.n, 0);
+  for (std::size_t b = 0; b < cs.nb; ++b)
+    for (std::size_t k = 0; k < cs.pat.size(); ++k)
+      cs.rhs[b * cs.n + cs.pat[k].first] += cs.vals[b * cs.pat.size() + k] * x0[b * cs.n + cs.pat[k].second];
+  if (csc)
+  {
+    VERIF_DISPATCH_L(
+        L,
+        (sub_alg<micm::SparseMatrixStandardOrderingCompressedSparseColumn, micm::Matrix<double>>(cs, x0, out)),
+        (sub_alg<micm::SparseMatrixVectorOrderingCompressedSparseColumn<LL>, micm::VectorMatrix<double, LL>>(cs, x0, out)));
+  }
+  else
+  {
+    VERIF_DISPATCH_L(
+        L,
+        (sub_alg<micm::SparseMatrixStandardOrderingCompressedSparseRow, micm::Matrix<double>>(cs, x0, out)),
+        (sub_alg<micm::SparseMatrixVectorOrderingCompressedSparseRow<LL>, micm::VectorMatrix<double, LL>>(cs, x0, out)));
+  }
+}
+
 // family "markowitz": n L bits[n*n] — the real DiagonalMarkowitzReorder on a 0/1 pattern; oracle: the
 // result is a permutation of 0..n-1 (whatever pivot heuristic the routine uses)
 template<class IM>
@@ -662,5 +730,5 @@ static void fam_markowitz(Toks& tk, Out& out)
 
 int main()
 {
-  return vio::run({ { "markowitz", fam_markowitz }, { "lu", [](Toks& t, Out& o) { fam(t, o, false); } }, { "linsolve", [](Toks& t, Out& o) { fam(t, o, true); } }, { "linbig", [](Toks& t, Out& o) { fam_big(t, o, true); } }, { "lubig", [](Toks& t, Out& o) { fam_big(t, o, false); } }, { "linscale", fam_linscale } });
+  return vio::run({ { "markowitz", fam_markowitz }, { "lu", [](Toks& t, Out& o) { fam(t, o, false); } }, { "linsolve", [](Toks& t, Out& o) { fam(t, o, true); } }, { "linbig", [](Toks& t, Out& o) { fam_big(t, o, true); } }, { "lubig", [](Toks& t, Out& o) { fam_big(t, o, false); } }, { "linscale", fam_linscale }, { "linsub", fam_linsub } });
 }
